@@ -11,7 +11,10 @@ ID = "C09"
 GEN_DEPENDS = ["Alphabets", "Tables", "C09Consts"]
 RULE = ("matrices of every data type (dna, rna, protein, standard incl. custom symbol sets, restriction, infinite sites, continuous) "
         "x building route (from_dict, parsed from harness-composed NEXUS sequential/interleaved/DATA-block/matchchar/{..}(..) tokens, "
-        "PHYLIP strict/relaxed x sequential/interleaved, FASTA, NeXML with explicit columns, concatenate, export_character_indices) "
+        "PHYLIP strict/relaxed x sequential/interleaved, FASTA, NeXML with explicit columns, concatenate, export_character_indices, "
+        "'assembled': every row put in place another way - m[t]=list / coerced str / generic CharacterDataSequence / sequence object of "
+        "another matrix type / own type, new_sequence, short rows completed by fill(), missing rows by fill_taxa()+fill() or pack(), "
+        "add_/update_/extend_sequences from a second matrix, then optionally copy-constructed / cloned / deep-copied) "
         "x target format x writer/reader options, 1xN and Nx1 included, conversion chains of two formats, data sets with 1-3 "
         "namespaces x suppress_block_titles in {default, None, False, True} x {nexus, nexml}; NEXUS data sets also x unquoted_underscores "
         "x preserve_spaces x reader preserve_underscores (where the taxon labels survive it) with namespace / matrix / tree-list labels "
@@ -553,6 +556,8 @@ def build(dendropy, spec):
             m[tns.get_taxon(l)] = m.coerce_values(r) if dt != "continuous" else list(r)
         order = [l for l in rt["all_labels"] if l in rt["labels"]]
         return m, [[l, list(rt["rows"][rt["labels"].index(l)])] for l in order], sa
+    if via == "assembled":
+        return build_assembled(dendropy, spec, cls, mk, sa)
     if via in ("nexus", "phylip", "fasta", "nexml"):
         text = rt["text"] if "text" in rt else compose_nexus(rt["params"])
         kw = dict(rt.get("kw", {}))
@@ -560,6 +565,129 @@ def build(dendropy, spec):
         m = cls.get(data=text, schema=via, **kw)
         return m, [[l, list(r)] for l, r in rt["ref"]], sa
     raise ValueError(via)
+
+
+OTHER_TYPE = {"dna": "rna", "rna": "protein", "nucleotide": "dna", "protein": "dna", "standard": "dna", "restriction": "standard",
+              "infinite": "restriction", "continuous": "dna"}
+
+
+def build_assembled(dendropy, spec, cls, mk, sa):
+    """a matrix whose rows are put in place one by one, each by another documented way of giving a matrix a row:
+    `m[t] = list` / `= str` (discrete symbols through coerce_values) / `= CharacterDataSequence(values)` (the generic base
+    class) / `= <sequence object of another matrix type holding the same values>`, `new_sequence(t, values)`, a short row
+    completed by `fill(value)`, a missing row created by `fill_taxa()` + `fill(value)` or `pack(value)`, rows taken over
+    from a second matrix by `add_sequences` / `update_sequences` / `extend_sequences(is_add_new_sequences=True)`, a prefix
+    extended by `extend_sequences`; optionally the result is copy-constructed or cloned.  Reference = the values alone."""
+    from dendropy.datamodel import charmatrixmodel as cmm
+    dt, rt = spec["dt"], spec["route"]
+    cont = dt == "continuous"
+    tns = dendropy.TaxonNamespace()
+    taxa = [tns.new_taxon(label=l) for l in rt["labels"]]
+    m = cls(taxon_namespace=tns, **mk)
+    donor = cls(taxon_namespace=tns, **mk)          # second matrix of the same type over the same namespace
+    other_cls = matrix_class(dendropy, OTHER_TYPE[dt])
+
+    def vals(r):
+        return [float(x) for x in r] if cont else list(m.coerce_values(r))
+
+    nchar = max(len(r) for r in rt["rows"])
+    pad = rt.get("pad")
+    padv = (float(pad) if cont else m.coerce_values([pad])[0]) if pad is not None else None
+    late = []
+    for t, r, how in zip(taxa, rt["rows"], rt["how"]):
+        if how == "list":
+            m[t] = vals(r)
+        elif how == "str":
+            m[t] = m.coerce_values("".join(r))
+        elif how == "generic":
+            m[t] = cmm.CharacterDataSequence(vals(r))
+        elif how == "other":
+            m[t] = other_cls.character_sequence_type(vals(r))
+        elif how == "own":
+            m[t] = cls.character_sequence_type(vals(r))
+        elif how == "new_sequence":
+            m.new_sequence(t, vals(r))
+        elif how == "fill":              # all but the last k cells given, the rest is the pad value
+            k = rt["short"]
+            m[t] = vals(r[:len(r) - k])
+        elif how == "generic+fill":
+            k = rt["short"]
+            m[t] = cmm.CharacterDataSequence(vals(r[:len(r) - k]))
+        elif how in ("fill_taxa", "pack"):
+            pass                         # whole row is the pad value, created below
+        elif how in ("add", "update", "extend_new"):
+            donor[t] = vals(r)
+            late.append(how)
+        elif how == "extend":
+            h = len(r) // 2
+            m[t] = vals(r[:h])
+            donor[t] = vals(r[h:])
+            late.append("extend")
+        else:
+            raise ValueError(how)
+    if "update" in late:
+        m.update_sequences(donor)
+    elif "add" in late:
+        m.add_sequences(donor)
+    elif late:
+        m.extend_sequences(donor, is_add_new_sequences=True)
+    hows = set(rt["how"])
+    if "pack" in hows:
+        m.pack(value=padv, size=nchar)
+    else:
+        if "fill_taxa" in hows:
+            m.fill_taxa()
+        if hows & {"fill", "generic+fill", "fill_taxa"}:
+            m.fill(padv, size=nchar)
+    fin = rt.get("finish")
+    if fin == "copy":
+        m = cls(m)
+    elif fin == "clone":
+        m = m.clone()
+    elif fin == "deepcopy":
+        import copy
+        m = copy.deepcopy(m)
+    return m, [[l, list(r)] for l, r in zip(rt["labels"], rt["rows"])], sa
+
+
+ASSEMBLE_HOWS = ["list", "str", "generic", "other", "own", "new_sequence", "fill", "generic+fill", "fill_taxa", "pack", "add", "update",
+                 "extend_new", "extend"]
+
+
+def gen_assembled_route(rng, dt, labels, rows, syms):
+    """rows: the intended content; rows made by padding are overwritten here with the pad value"""
+    nchar = len(rows[0])
+    cont = dt == "continuous"
+    pad = (rng.choice([0.25, -9.125, 0.0, 3.0]) if cont else rng.choice([c for c in syms if c in "-?N0X"] or [syms[0]]))
+    hows = []
+    late_kind = rng.choice(["add", "update", "extend_new"])       # one bulk operation per matrix
+    use_pack = rng.random() < 0.5
+    for i in range(len(rows)):
+        h = rng.choice(ASSEMBLE_HOWS)
+        if h in ("add", "update", "extend_new"):
+            h = late_kind
+        if h == "extend" and (late_kind != "extend_new" or nchar < 2):
+            h = "list"                    # only extend_sequences appends to a row that is already there
+        if h == "str" and cont:
+            h = "generic"
+        if h in ("fill_taxa", "pack"):
+            h = "pack" if use_pack else "fill_taxa"
+        if h in ("fill", "generic+fill") and nchar < 2:
+            h = "generic"
+        hows.append(h)
+    if use_pack and any(h in ("fill", "generic+fill") for h in hows) and "pack" not in hows:
+        pass                              # fill() alone completes the short rows
+    short = rng.randint(1, max(1, nchar - 1))
+    rows = [list(r) for r in rows]
+    for r, h in zip(rows, hows):
+        if h in ("fill_taxa", "pack"):
+            r[:] = [pad] * nchar
+        elif h in ("fill", "generic+fill"):
+            r[nchar - short:] = [pad] * short
+    if all(h in ("fill_taxa", "pack") for h in hows):
+        hows[0] = "list"                  # at least one row fixes the matrix width
+    return {"via": "assembled", "labels": labels, "rows": rows, "how": hows, "pad": pad, "short": short,
+            "finish": rng.choice([None, None, "copy", "clone", "deepcopy"])}
 
 
 # ---------------------------------------------------------------------------------------------- NeXML abstract document
@@ -627,6 +755,8 @@ def write_opts(rng, fmt, labels, dt):
         return {}, {}
     if fmt == "fasta":
         return ({"wrap": False} if rng.random() < 0.2 else {}), {}
+    if fmt == "nexml" and rng.random() < 0.4:
+        return {"markup_as_sequences": True}, {}      # NeXML <seq> rows instead of <cell> elements
     return {}, {}
 
 
@@ -920,7 +1050,7 @@ def exec_matrix(ctx, dendropy, spec, pending):
         if w.get("wrap", True):
             pending.append(("fawrite " + rows_field(ref), spec, canon_fasta(text), "fawrite"))
         pending.append(("faread %s %s" % (dtf, hex6(text)), spec, "err" if got is None else "ok " + rows_field(got), "faread"))
-    elif fmt == "nexml":
+    elif fmt == "nexml" and not w.get("markup_as_sequences"):
         try:
             docs = nexml_abstract(text)
         except ET.ParseError:
@@ -997,9 +1127,9 @@ def gen_matrix_spec(rng, dt=None, via=None, fmt=None, dims=None):
     syms = SYMS.get(dt)
     if dt == "standard" and std:
         syms = std + "-?"
-    routes = ["dict", "dict", "concatenate", "export", "subset", "nexus", "phylip", "fasta", "nexml"]
+    routes = ["dict", "dict", "concatenate", "export", "subset", "nexus", "phylip", "fasta", "nexml", "assembled", "assembled"]
     if dt == "continuous":
-        routes = ["dict", "dict", "concatenate", "export", "nexus", "phylip", "nexml"]
+        routes = ["dict", "dict", "concatenate", "export", "nexus", "phylip", "nexml", "assembled", "assembled"]
     if dt == "nucleotide":
         routes = [x for x in routes if x != "nexml"]
     if dt in ("restriction", "infinite"):
@@ -1030,6 +1160,8 @@ def gen_matrix_spec(rng, dt=None, via=None, fmt=None, dims=None):
         if dt not in ("continuous",) and rng.random() < 0.3 and dt != "standard":
             inp = [[c.lower() if rng.random() < 0.3 else c for c in row] for row in rows]
         spec["route"] = {"via": "dict", "labels": labels, "rows": rows, "input": inp, "as_str": dt != "continuous" and rng.random() < 0.6}
+    elif via == "assembled":
+        spec["route"] = gen_assembled_route(rng, dt, labels, rows, syms)
     elif via == "concatenate":
         cut = sorted({0, nchar} | {rng.randint(1, max(1, nchar - 1)) for _ in range(rng.randint(1, 2))}) if nchar > 1 else [0, nchar]
         parts = [[row[a:b] for row in rows] for a, b in zip(cut, cut[1:])]
@@ -1089,6 +1221,8 @@ def gen_matrix_spec(rng, dt=None, via=None, fmt=None, dims=None):
             c = [f for f in c if f != "phylip"]
         if c:
             spec["chain"] = rng.choice(c)
+    if spec.get("has_multi") and spec["w"].get("markup_as_sequences"):
+        spec["w"] = {}                     # documented: symbol-less states cannot be written in NeXML sequence format
     if spec.get("has_multi") and fmt in ("phylip", "fasta"):
         spec["target"] = "nexus"           # formats without multistate tokens cannot hold symbol-less states
         spec["w"], spec["r"] = {}, {}
@@ -1640,6 +1774,8 @@ def run(ctx):
         for f in FORMATS:
             if dt in SUPPORTED[f] or (f == "nexus" and dt in ("restriction", "infinite")):
                 exec_spec(ctx, dendropy, gen_matrix_spec(rng, dt=dt, via="dict", fmt=f), pending)
+                for _ in range(2):
+                    exec_spec(ctx, dendropy, gen_matrix_spec(rng, dt=dt, via="assembled", fmt=f), pending)
     flush(ctx, pending)
     ncases = ctx.pick(7000, 120000)
     for k in range(ncases):
@@ -1661,7 +1797,7 @@ def run(ctx):
         ctx.budget_s = 840
         # exhaustive small scope: every data type x route x target format x every dimension pair <= 3x3 (+ 1x71, 3x141)
         for dt in DTYPES:
-            for via in ("dict", "concatenate", "export", "subset", "nexus", "phylip", "fasta", "nexml"):
+            for via in ("dict", "concatenate", "export", "subset", "nexus", "phylip", "fasta", "nexml", "assembled", "assembled"):
                 for f in FORMATS:
                     if not (dt in SUPPORTED[f] or (f == "nexus" and dt in ("restriction", "infinite"))):
                         continue
